@@ -2983,6 +2983,50 @@ theorem ipheaders_table (pre b : Bytes) (hH : HoldsAnnounced b) :
       · simp only [if_neg hv6] at hplan ⊢
         exact ⟨_, _, ipHeadersRead_fail pre b h1 _ hplan, rfl⟩
 
+/-- a successful `IpHeaders::from_slice` already says that the slice holds the announced packet; what is
+    left of the hypothesis is the IPv6 "payload_length 0 = to the end of the slice" rule -/
+theorem holdsAnnounced_of_ok (b : Bytes) (r : Dec.IpR)
+    (hd : Dec.ipHeadersFromSlice (Dec.memOf b) 0 b.length = .ok r)
+    (hz : bAt b 0 / 16 = 6 → ¬ (be16 b 4 = 0 ∧ 40 < b.length)) : HoldsAnnounced b := by
+  have hg0 : Dec.memOf b 0 = bAt b 0 := rfl
+  unfold Dec.ipHeadersFromSlice Dec.ipDispatchHeader at hd
+  simp only [hg0] at hd
+  by_cases h0 : b.length = 0
+  · simp only [if_pos h0] at hd; cases hd
+  · simp only [if_neg h0] at hd
+    refine ⟨fun hv4 => ?_, fun hv6 => ?_⟩
+    · simp only [if_pos hv4] at hd
+      by_cases hl20 : b.length < 20
+      · simp only [hl20, and_self, if_true] at hd; cases hd
+      · simp only [hl20, and_false, if_false] at hd
+        by_cases hi : bAt b 0 % 16 < 5
+        · simp only [if_pos hi] at hd; cases hd
+        · simp only [if_neg hi] at hd
+          by_cases hs : b.length < bAt b 0 % 16 * 4
+          · simp only [if_pos hs] at hd; cases hd
+          · simp only [if_neg hs] at hd
+            unfold Dec.ipv4AfterHeaderStrict Dec.ipv4BoundStrict at hd
+            simp only [g16_memOf, Nat.zero_add] at hd
+            by_cases ht : be16 b 2 < bAt b 0 % 16 * 4
+            · simp only [if_pos ht] at hd; cases hd
+            · simp only [if_neg ht] at hd
+              by_cases hl : b.length < be16 b 2
+              · simp only [if_pos hl] at hd; cases hd
+              · omega
+    · have hv4 : ¬ bAt b 0 / 16 = 4 := by omega
+      simp only [if_neg hv4, if_pos hv6] at hd
+      by_cases hl40 : b.length < 40
+      · simp only [if_pos hl40] at hd; cases hd
+      · simp only [if_neg hl40] at hd
+        refine ⟨?_, hz hv6⟩
+        unfold Dec.ipv6AfterHeaderStrict Dec.ipv6BoundStrict at hd
+        simp only [g16_memOf, Nat.zero_add] at hd
+        have hz' := hz hv6
+        rw [if_neg (by omega)] at hd
+        by_cases hl : b.length < 40 + be16 b 4
+        · simp only [if_pos hl] at hd; cases hd
+        · omega
+
 end LimitedReaders
 
 end EpModel.Lemmas.ReadVsSlice
